@@ -237,8 +237,147 @@ pub fn run_all(opts: &Opts, cfgs: Vec<MCfg>) -> (Local, Vec<serde_json::Value>) 
     (total, stats)
 }
 
+/// The same additivity through a Model: after any sequence of forward / backward calls without an
+/// update (and with hand-made passes over the parameters in between), every parameter's gradient is
+/// the sum of what each backward call deposits on a fresh model brought to the same point.
+fn explore_model_accumulation(opts: &Opts) -> Local {
+    use crate::nn::{build_layers, Act, ActStore, CostK, LayerCfg};
+    use corgi::array::Array;
+    use corgi::numbers::Float;
+    let var = opts.seed % 3;
+    let stacks: Vec<Vec<LayerCfg>> = vec![
+        vec![LayerCfg::Dense { inp: 2, out: 2, act: Act::None }],
+        vec![LayerCfg::Dense { inp: 2, out: 3, act: Act::Sigmoid }, LayerCfg::Dense { inp: 3, out: 2, act: Act::None }],
+    ];
+    // call sequences: F = forward (batch k), B = backward, P = a penalty pass (sum of squares of the
+    // first parameter) run by hand on the parameter; every sequence of length <= 5 (thorough 6) with
+    // B only after an F
+    let max_len = if opts.tier == Tier::Quick { 5 } else { 6 };
+    let mut seqs: Vec<Vec<u8>> = vec![vec![]];
+    let mut all: Vec<Vec<u8>> = Vec::new();
+    for _ in 0..max_len {
+        let mut next = Vec::new();
+        for sq in &seqs {
+            for a in 0..3u8 {
+                if a == 1 && !sq.contains(&0) {
+                    continue;
+                }
+                let mut t = sq.clone();
+                t.push(a);
+                if t.iter().filter(|c| **c != 0).count() >= 2 && a != 0 {
+                    all.push(t.clone());
+                }
+                next.push(t);
+            }
+        }
+        seqs = next;
+    }
+    let items: Vec<(usize, Vec<u8>)> = (0..stacks.len()).flat_map(|k| all.iter().map(move |s| (k, s.clone()))).collect();
+    par(opts, items.len(), |i, l| {
+        let (si, seq) = &items[i];
+        let cfgs = &stacks[*si];
+        let case = || format!("model {} calls {}", si, seq.iter().map(|c| ["F", "B", "P"][*c as usize]).collect::<String>());
+        if !l.want(&case) {
+            return;
+        }
+        l.states += 1;
+        l.validated += 1;
+        // run the calls; `deposit_only`: clear every parameter's gradient right before that call, so
+        // that what remains afterwards is the deposit of that call alone
+        let run = |deposit_only: Option<usize>| -> Result<Vec<Option<Vec<Float>>>, String> {
+            run_catch(|| {
+                let store = ActStore::new(cfgs);
+                let mut layers = build_layers(cfgs, &store, 4 + var);
+                let handles: Vec<Array> = layers.iter_mut().flat_map(|ly| ly.parameters().into_iter().map(|p| p.clone()).collect::<Vec<_>>()).collect();
+                let gd = corgi::optimizer::gd::GradientDescent::new(0.5);
+                let cost = CostK::Mse.make();
+                {
+                    let refs: Vec<&mut dyn corgi::layer::Layer> = layers.iter_mut().map(|b| &mut **b as &mut dyn corgi::layer::Layer).collect();
+                    let mut model = corgi::model::Model::new(refs, &gd, &cost);
+                    let mut nf = 0usize;
+                    for (k, c) in seq.iter().enumerate() {
+                        if deposit_only == Some(k) {
+                            for h in &handles {
+                                let _ = h.replace_gradient();
+                            }
+                        }
+                        match c {
+                            0 => {
+                                nf += 1;
+                                let _ = model.forward(Array::from((vec![2, 2], vec![0.5 + nf as Float, -1.0, 0.25 * nf as Float, 2.0])));
+                            }
+                            1 => {
+                                let _ = model.backward(Array::from((vec![2, 2], vec![0.25, 0.5 + 0.25 * nf as Float, -0.5, 1.0])));
+                            }
+                            _ => {
+                                let p = &handles[0];
+                                let pen = p * p;
+                                pen.backward(None);
+                            }
+                        }
+                        if deposit_only == Some(k) {
+                            break;
+                        }
+                    }
+                }
+                handles.iter().map(|h| h.gradient().as_ref().map(|g| g.values().to_vec())).collect()
+            })
+        };
+        l.transitions += 1;
+        let total = match run(None) {
+            Ok(t) => t,
+            Err(m) => {
+                l.violation("model-accumulation", case(), format!("panicked: {}", m));
+                return;
+            }
+        };
+        // expected: the element-wise sum, in call order, of the single deposits
+        let mut expect: Vec<Option<Vec<Float>>> = vec![None; total.len()];
+        for (k, c) in seq.iter().enumerate() {
+            if *c == 0 {
+                continue;
+            }
+            l.transitions += 1;
+            match run(Some(k)) {
+                Err(m) => {
+                    l.violation("model-accumulation", case(), format!("panicked: {}", m));
+                    return;
+                }
+                Ok(dep) => {
+                    for (e, d) in expect.iter_mut().zip(dep) {
+                        if let Some(d) = d {
+                            *e = Some(match e.take() {
+                                None => d,
+                                Some(acc) => acc.iter().zip(&d).map(|(x, y)| *x + *y).collect(),
+                            });
+                        }
+                    }
+                }
+            }
+        }
+        let mut dg = 0xcbf29ce484222325u64;
+        for (k, (t, e)) in total.iter().zip(&expect).enumerate() {
+            let same = match (t, e) {
+                (None, None) => true,
+                (Some(a), Some(b)) => a.len() == b.len() && a.iter().zip(b).all(|(p, q)| p.to_bits() == q.to_bits() || (*p - *q).abs() <= 4.0 * Float::EPSILON * (p.abs() + q.abs())),
+                _ => false,
+            };
+            if let Some(a) = t {
+                fnv(&mut dg, &digest_vals(&[a.len()], a).to_le_bytes());
+            }
+            if !same {
+                l.violation("model-accumulation", case(), format!("parameter {} holds {:?} after the calls; the calls' single deposits add up to {:?}", k, t, e));
+                break;
+            }
+        }
+        l.outcome(dg);
+        l.sample(&case);
+    })
+}
+
 pub fn explore(opts: &Opts) -> Explored {
-    let (local, stats) = run_all(opts, machines(opts));
+    let (mut local, stats) = run_all(opts, machines(opts));
+    local.merge(explore_model_accumulation(opts));
     Explored {
         local,
         bounds: json!({"machines": stats, "seeds": "0 = omitted, 1 = generic, 2 = zeros", "clear": ["replace_gradient", "gradient_mut"]}),
